@@ -127,7 +127,7 @@ func c16cGen(r *rng, tier string, emit func(string)) {
 	thorough := tier == "thorough"
 	scale := 1
 	if thorough {
-		scale = 12
+		scale = 14
 	}
 	versions := []int{0x0101, 0x0303, 0x0302, 0x0301, 0, 0xffff, 0x0100}
 	suites := []int{0xe013, 0xe053, 0xc02f, 0x009c, 0x002f, 0, 0xffff}
@@ -177,9 +177,11 @@ func c16cGen(r *rng, tier string, emit func(string)) {
 		valid = append(valid,
 			st{0x0101, 0xe013, r.bytes(48), rndCerts(255, []int{0, 1, 2})},
 			st{0x0101, 0xe013, r.bytes(48), rndCerts(256, []int{0, 1, 2})},
+			st{0x0101, 0xe013, r.bytes(48), rndCerts(4095, []int{0, 1})},
+			// the largest count; the model re-measures the remaining input per certificate as the Go code's
+			// len() does, which costs the Lean list model about a minute here, hence only once
 			st{0x0101, 0xe013, r.bytes(48), rndCerts(65535, []int{0})},
 			st{0x0303, 0x009c, r.bytes(48), [][]byte{r.bytes(1 << 20)}},
-			st{0x0303, 0x009c, r.bytes(48), [][]byte{r.bytes(16777216)}}, // first length with the top byte set
 		)
 	}
 	for _, s := range valid {
@@ -202,7 +204,7 @@ func c16cGen(r *rng, tier string, emit func(string)) {
 	// 3. every truncation and every one-byte extension of a few short valid encodings
 	nTrunc := 3
 	if thorough {
-		nTrunc = 14
+		nTrunc = 18
 	}
 	for k := 0; k < nTrunc; k++ {
 		var s st
@@ -324,9 +326,9 @@ func c16cGen(r *rng, tier string, emit func(string)) {
 		emit("sstate " + hx(b))
 	}
 	if thorough {
-		// the largest counts with the data to match
-		b := []byte{1, 1, 0xe0, 0x13, 0, 0, 0xff, 0xff}
-		b = append(b, make([]byte, 4*65535)...)
+		// a large count with the data to match, one byte less, one byte more
+		b := []byte{1, 1, 0xe0, 0x13, 0, 0, 0x10, 0x01}
+		b = append(b, make([]byte, 4*0x1001)...)
 		emit("sstate " + hx(b))
 		emit("sstate " + hx(b[:len(b)-1]))
 		emit("sstate " + hx(append(append([]byte{}, b...), 0)))
